@@ -316,6 +316,16 @@ type NSOptions struct {
 	// interpreter runtime support (see NSCommonSubset).
 	CommonSubset  bool
 	MaxStatements int // default 4
+	// Exclude names constructs the generator must not emit (see NSExcludable).
+	Exclude map[string]bool
+}
+
+// NSExcludable: keys accepted in NSOptions.Exclude.
+var NSExcludable = map[string]string{
+	"kept":                 "no `kept` destination",
+	"negative_monetary":    "no monetary subtraction whose result is negative",
+	"dup_balance_account":  "at most one balance() variable per account",
+	"save":                 "no `save` statement",
 }
 
 // NSCommonSubset documents what CommonSubset removes.
@@ -339,6 +349,8 @@ type nsGen struct {
 	nvar     int
 	destPool []string
 	feat     map[string]bool
+	balVars  map[string]*NSVar // account -> balance() variable
+	srcUsed  map[string]bool   // accounts used as sources of the current send
 	asset    string // main asset of the program
 }
 
@@ -439,18 +451,39 @@ func (g *nsGen) monetary(asset string, amt *big.Int, allowExpr bool) *NSMonetary
 		if g.p(35) {
 			// balance() origin: value is whatever the account holds
 			acc := g.pickAccountName(false)
-			g.nvar++
-			v := &NSVar{Name: fmt.Sprintf("bal%d", g.nvar), Type: "monetary", Origin: "balance",
-				OriginAccount: g.accountNode(acc, g.p(80)), OriginAsset: g.assetNode(asset)}
+			if len(g.balVars) > 0 && g.p(55) { // read an account a balance() variable already reads
+				var names []string
+				for a := range g.balVars {
+					names = append(names, a)
+				}
+				sort.Strings(names)
+				acc = names[g.rng.Intn(len(names))]
+			}
 			b := g.w.Balance(acc, asset)
-			v.Raw = asset + " " + b.String()
 			m.Amount = b
-			g.vars = append(g.vars, v)
+			if prev := g.balVars[acc]; prev != nil && (g.opt.Exclude["dup_balance_account"] || g.p(35)) {
+				if prev.OriginAsset.Name == asset {
+					m.Var = prev
+				} else {
+					m.Var = nil
+					m.Amount = amt
+				}
+			} else {
+				g.nvar++
+				v := &NSVar{Name: fmt.Sprintf("bal%d", g.nvar), Type: "monetary", Origin: "balance",
+					OriginAccount: g.accountNode(acc, g.p(80)), OriginAsset: g.assetNode(asset)}
+				v.Raw = asset + " " + b.String()
+				g.vars = append(g.vars, v)
+				if prev != nil {
+					g.feat["balance_fn_twice_same_account"] = true
+				}
+				g.balVars[acc] = v
+				m.Var = v
+			}
 			g.feat["balance_fn"] = true
-			if b.Sign() < 0 {
+			if m.Var != nil && b.Sign() < 0 {
 				g.feat["balance_fn_negative"] = true
 			}
-			m.Var = v
 		} else {
 			m.Var = g.newVar("monetary", asset+" "+amt.String())
 		}
@@ -460,6 +493,13 @@ func (g *nsGen) monetary(asset string, amt *big.Int, allowExpr bool) *NSMonetary
 		m.Op = '+'
 		if g.p(40) {
 			m.Op = '-'
+			if m.Amount.Cmp(m.Rhs.Amount) < 0 {
+				if g.opt.Exclude["negative_monetary"] {
+					m.Op = '+'
+				} else {
+					g.feat["negative_monetary"] = true
+				}
+			}
 		}
 		g.feat["monetary_arith"] = true
 	}
@@ -635,7 +675,7 @@ func (g *nsGen) claimDest(own *[]string) string {
 func (g *nsGen) dest(depth int, own *[]string, asset string) *NSDest {
 	x := g.rng.Intn(100)
 	keptOr := func() *NSDestItem {
-		if g.p(22) {
+		if g.p(22) && !g.opt.Exclude["kept"] {
 			g.feat["kept"] = true
 			return &NSDestItem{Kept: true}
 		}
@@ -758,7 +798,7 @@ func GenNumscript(rng *rand.Rand, opt NSOptions) *NSProgram {
 	if opt.MaxStatements <= 0 {
 		opt.MaxStatements = 4
 	}
-	g := &nsGen{rng: rng, opt: opt, w: genWorld(rng), feat: map[string]bool{}}
+	g := &nsGen{rng: rng, opt: opt, w: genWorld(rng), feat: map[string]bool{}, balVars: map[string]*NSVar{}}
 	g.asset = NSAssets[rng.Intn(len(NSAssets))]
 	g.destPool = append([]string{}, NSAccounts...)
 	rng.Shuffle(len(g.destPool), func(i, j int) { g.destPool[i], g.destPool[j] = g.destPool[j], g.destPool[i] })
@@ -778,7 +818,7 @@ func GenNumscript(rng *rand.Rand, opt NSOptions) *NSProgram {
 			}
 			stmts = append(stmts, g.send())
 			nsend++
-		case x < 76:
+		case x < 76 && !opt.Exclude["save"]:
 			st := &NSStatement{Kind: "save", Account: g.accountNode(g.pickAccountName(false), false)}
 			if g.p(30) {
 				st.All = true
@@ -1021,8 +1061,54 @@ func flattenDest(d *NSDest, accs map[string]bool, kept *bool) {
 	}
 }
 
-// Finalize (re)computes Text, Vars and Sends from Stmts.
+// walkMonetaries visits every monetary expression node of the program.
+func (p *NSProgram) walkMonetaries(f func(m *NSMonetary)) {
+	var mon func(m *NSMonetary)
+	mon = func(m *NSMonetary) {
+		if m != nil {
+			f(m)
+			mon(m.Rhs)
+		}
+	}
+	var src func(s *NSSource)
+	src = func(s *NSSource) {
+		if s != nil {
+			mon(s.Bound)
+			mon(s.Cap)
+			src(s.Sub)
+			for _, c := range s.Subs {
+				src(c)
+			}
+		}
+	}
+	var dst func(d *NSDest)
+	dst = func(d *NSDest) {
+		if d != nil {
+			for _, it := range d.Items {
+				mon(it.Cap)
+				dst(it.To)
+			}
+		}
+	}
+	for _, s := range p.Stmts {
+		mon(s.Mon)
+		src(s.Source)
+		dst(s.Dest)
+		if s.Value != nil {
+			mon(s.Value.Monetary)
+		}
+	}
+}
+
+// Finalize (re)computes Text, Vars and Sends from Stmts; balance() variables
+// are re-resolved against World (it may have been edited by the shrinker).
 func (p *NSProgram) Finalize() {
+	p.walkMonetaries(func(m *NSMonetary) {
+		if m.Var != nil && m.Var.Origin == "balance" {
+			m.Amount = p.World.Balance(m.Var.OriginAccount.Name, m.Var.OriginAsset.Name)
+			m.Var.Raw = m.Var.OriginAsset.Name + " " + m.Amount.String()
+		}
+	})
 	r := &nsRender{seen: map[*NSVar]bool{}}
 	var body []string
 	for _, s := range p.Stmts {
@@ -1327,8 +1413,8 @@ func (p *NSProgram) edits() []nsEdit {
 			}
 		}
 	}
-	var visitDst func(get func() *NSDest, set func(*NSDest))
-	visitDst = func(get func() *NSDest, set func(*NSDest)) {
+	var visitDst func(get func() *NSDest, set func(*NSDest), sink string)
+	visitDst = func(get func() *NSDest, set func(*NSDest), sink string) {
 		d := get()
 		if d == nil {
 			return
@@ -1342,6 +1428,15 @@ func (p *NSProgram) edits() []nsEdit {
 			it := d.Items[i]
 			if !it.Kept {
 				es = append(es, func() bool { set(it.To); return true })
+			} else {
+				es = append(es, func() bool {
+					if !it.Kept || sink == "" {
+						return false
+					}
+					it.Kept = false
+					it.To = &NSDest{Kind: "account", Account: &NSAccount{Name: sink}}
+					return true
+				})
 			}
 			es = append(es, func() bool { // drop a clause
 				last := len(d.Items) - 1
@@ -1367,7 +1462,7 @@ func (p *NSProgram) edits() []nsEdit {
 			visitMon(it.Cap)
 			visitPor(it.Portion)
 			if !it.Kept {
-				visitDst(func() *NSDest { return it.To }, func(n *NSDest) { it.To = n })
+				visitDst(func() *NSDest { return it.To }, func(n *NSDest) { it.To = n }, sink)
 			}
 		}
 	}
@@ -1382,7 +1477,7 @@ func (p *NSProgram) edits() []nsEdit {
 					s.Source = n
 				}
 			})
-			visitDst(func() *NSDest { return s.Dest }, func(n *NSDest) { s.Dest = n })
+			visitDst(func() *NSDest { return s.Dest }, func(n *NSDest) { s.Dest = n }, p.sinkFor(s))
 			es = append(es, func() bool {
 				if !s.DestFirst {
 					return false
@@ -1595,4 +1690,214 @@ func (p *NSProgram) Shape() string {
 		}
 	}
 	return strings.Join(parts, ";")
+}
+
+// ---------------------------------------------------------------------------
+// Uses reports, from the AST as it is now (after shrinking too), which of the
+// NSExcludable constructs the program contains.
+func (p *NSProgram) Uses() map[string]bool {
+	u := map[string]bool{}
+	balAcc := map[string]*NSVar{}
+	var seeVar func(v *NSVar)
+	seeVar = func(v *NSVar) {
+		if v == nil {
+			return
+		}
+		if v.Origin == "balance" {
+			if o, ok := balAcc[v.OriginAccount.Name]; ok && o != v {
+				u["dup_balance_account"] = true
+			}
+			balAcc[v.OriginAccount.Name] = v
+		}
+		if v.OriginAccount != nil {
+			seeVar(v.OriginAccount.Var)
+		}
+	}
+	var mon func(m *NSMonetary)
+	mon = func(m *NSMonetary) {
+		if m == nil {
+			return
+		}
+		seeVar(m.Var)
+		if m.Value().Sign() < 0 {
+			u["negative_monetary"] = true
+		}
+		mon(m.Rhs)
+	}
+	var src func(s *NSSource, seen map[string]bool)
+	src = func(s *NSSource, seen map[string]bool) {
+		if s == nil {
+			return
+		}
+		if s.Kind == "account" {
+			seeVar(s.Account.Var)
+			if seen[s.Account.Name] {
+				u["repeated_source"] = true
+			}
+			seen[s.Account.Name] = true
+			if s.Overdraft == "bounded" {
+				u["overdraft_bounded"] = true
+				mon(s.Bound)
+			}
+			return
+		}
+		mon(s.Cap)
+		src(s.Sub, seen)
+		for _, c := range s.Subs {
+			src(c, seen)
+		}
+	}
+	var dst func(d *NSDest)
+	dst = func(d *NSDest) {
+		if d.Kind == "account" {
+			seeVar(d.Account.Var)
+			return
+		}
+		for _, it := range d.Items {
+			mon(it.Cap)
+			if it.Kept {
+				u["kept"] = true
+			} else {
+				dst(it.To)
+			}
+		}
+	}
+	for i, s := range p.Stmts {
+		mon(s.Mon)
+		if s.Value != nil {
+			mon(s.Value.Monetary)
+		}
+		switch s.Kind {
+		case "save":
+			u["save"] = true
+		case "send":
+			seen := map[string]bool{}
+			src(s.Source, seen)
+			dst(s.Dest)
+			for _, sd := range p.Sends {
+				if sd.Stmt == i {
+					for _, d := range sd.Destinations {
+						if seen[d] {
+							u["source_is_own_dest"] = true
+						}
+					}
+				}
+			}
+		}
+	}
+	return u
+}
+
+// sinkFor returns an account that statement s may use as an extra destination
+// without breaking the disjoint-destinations rule.
+func (p *NSProgram) sinkFor(s *NSStatement) string {
+	other := map[string]bool{}
+	var own []string
+	for _, st := range p.Stmts {
+		if st.Kind != "send" {
+			continue
+		}
+		accs := map[string]bool{}
+		k := false
+		flattenDest(st.Dest, accs, &k)
+		for a := range accs {
+			if st == s {
+				own = append(own, a)
+			} else {
+				other[a] = true
+			}
+		}
+	}
+	if len(own) > 0 {
+		sort.Strings(own)
+		return own[0]
+	}
+	for _, a := range NSAccounts {
+		if !other[a] {
+			return a
+		}
+	}
+	return "sink"
+}
+
+func unkeep(d *NSDest, sink string) {
+	for _, it := range d.Items {
+		if it.Kept {
+			it.Kept = false
+			it.To = &NSDest{Kind: "account", Account: &NSAccount{Name: sink}}
+		} else if it.To != nil {
+			unkeep(it.To, sink)
+		}
+	}
+}
+
+// Without returns a copy of the program in which one NSExcludable construct is
+// neutralised everywhere: kept -> `to <an own destination>`, save -> statement
+// dropped, negative_monetary -> the subtraction dropped, dup_balance_account ->
+// balance() variables inlined. Used to attribute a disagreement to a construct.
+func (p *NSProgram) Without(cause string) *NSProgram {
+	c := p.Clone()
+	var mon func(m *NSMonetary)
+	mon = func(m *NSMonetary) {
+		if m == nil {
+			return
+		}
+		switch cause {
+		case "negative_monetary":
+			if m.Op == '-' && m.Value().Sign() < 0 {
+				m.Op, m.Rhs = 0, nil
+			}
+		case "dup_balance_account":
+			if m.Var != nil && m.Var.Origin == "balance" {
+				m.Var = nil
+			}
+		}
+		mon(m.Rhs)
+	}
+	var src func(s *NSSource)
+	src = func(s *NSSource) {
+		if s == nil {
+			return
+		}
+		mon(s.Bound)
+		mon(s.Cap)
+		src(s.Sub)
+		for _, x := range s.Subs {
+			src(x)
+		}
+	}
+	var dst func(d *NSDest)
+	dst = func(d *NSDest) {
+		if d == nil {
+			return
+		}
+		for _, it := range d.Items {
+			mon(it.Cap)
+			dst(it.To)
+		}
+	}
+	var stmts []*NSStatement
+	for _, s := range c.Stmts {
+		if cause == "save" && s.Kind == "save" {
+			continue
+		}
+		mon(s.Mon)
+		if s.Value != nil {
+			mon(s.Value.Monetary)
+		}
+		if s.Kind == "send" {
+			src(s.Source)
+			dst(s.Dest)
+			if cause == "kept" {
+				unkeep(s.Dest, c.sinkFor(s))
+			}
+		}
+		stmts = append(stmts, s)
+	}
+	if len(stmts) == 0 {
+		return nil
+	}
+	c.Stmts = stmts
+	c.Finalize()
+	return c
 }
